@@ -55,10 +55,78 @@ def creationIds : Op → Option Nat × Option Nat
   | .send721 _ _ _ (some (.createBucket id)) => (none, some id)
   | _ => (none, none)
 
+/-- a receive hook called directly (`exec`) is forged by definition: honest tokens only call it
+    from inside `send20` / `send721`. Callers that are not contracts get the prefix `acct.` -/
 def isForgedHook (w : World) : Op → Option (Nat × String)
-  | .exec s _ (.receive _ _ i) => if w.isHostile s then some (s, "RC." ++ innerTag i) else none
-  | .exec s _ (.receiveNft _ _ i) => if w.isHostile s then some (s, "RN." ++ innerTag i) else none
+  | .exec s _ (.receive _ _ i) =>
+    some (s, (if (w.kindOf s).isSome then "" else "acct.") ++ "RC." ++ innerTag i)
+  | .exec s _ (.receiveNft _ _ i) =>
+    some (s, (if (w.kindOf s).isSome then "" else "acct.") ++ "RN." ++ innerTag i)
   | _ => none
+
+/-- (listing id, bucket id) an op is aimed at -/
+def opTargets : Op → Option Nat × Option Nat
+  | .exec _ _ m =>
+    (match m with
+     | .createListing id _ | .addToListing id | .changeAsk id _ | .finalize id _ | .deleteListing id
+     | .withdrawPurchased id => (some id, none)
+     | .createBucket id | .addToBucket id | .removeBucket id => (none, some id)
+     | .buy l b => (some l, some b)
+     | .receive _ _ (some i) | .receiveNft _ _ (some i) =>
+       (match i with
+        | .createListing id _ | .addToListing id => (some id, none)
+        | .createBucket id | .addToBucket id => (none, some id))
+     | _ => (none, none))
+  | .send20 _ _ _ (some i) | .send721 _ _ _ (some i) =>
+    (match i with
+     | .createListing id _ | .addToListing id => (some id, none)
+     | .createBucket id | .addToBucket id => (none, some id))
+  | _ => (none, none)
+
+/-- a coarse description of the situation an op meets (for counting distinct cases) -/
+def opShape (w : World) (op : Op) : String :=
+  let (tl, tb) := opTargets op
+  let sender := opSender op
+  let ls := match tl with
+    | none => "-"
+    | some id =>
+      match findById id w.mkt.listings with
+      | none => if id ∈ w.mkt.listingUsed then "u" else "n"
+      | some (k, l) =>
+        (match l.status with | .preparing => "p" | .finalized => "f" | .closed => "c") ++
+        (if some k.1 == sender then "o" else "x") ++
+        (match l.expiresAt with | some e => if w.nowNs < e then "<" else if w.nowNs == e then "=" else ">" | none => "")
+  let bs := match tb with
+    | none => "-"
+    | some id =>
+      match w.mkt.buckets.find? (fun p => decide (p.1.2 = id)) with
+      | none => if id ∈ w.mkt.bucketUsed then "u" else "n"
+      | some (k, b) => "b" ++ (if some k.1 == sender then "o" else "x") ++ (if b.fee.isSome then "$" else "")
+  let n := w.mkt.listings.length + w.mkt.buckets.length
+  let nc := if n == 0 then "0" else if n ≤ 5 then "s" else if n ≤ 40 then "m" else "L"
+  let fc := match op with
+    | .exec _ f _ => if f.isEmpty then "" else if f.length == 1 then "+1" else "+n"
+    | _ => ""
+  let rs := match op with
+    | .royalty s msg =>
+      let c := match msg with | .register n _ _ => n | .update n _ _ => n | .remove n => n
+      (match c with
+       | .invalid => "I"
+       | .valid c =>
+         (match alookup c w.reg with
+          | none => "n"
+          | some e => "r" ++ (if w.height < e.lastUpdated + COOLDOWN then "<" else if w.height == e.lastUpdated + COOLDOWN then "=" else ">")) ++
+         (if isAdmin w.regEnv s c then "a" else if (w.regEnv.adminOf c).isNone then "?" else "x")) ++
+      (match msg with
+       | .register _ p b => (if bpsOk b then "b" else "B") ++ (if p == .invalid then "P" else "")
+       | .update _ p b => (match b with | none => "-" | some b => if bpsOk b then "b" else "B") ++
+                          (match p with | none => "-" | some .invalid => "P" | some _ => "p")
+       | .remove _ => "")
+    | .exec _ _ .feeCycle =>
+      let t := w.nowNs / NS
+      if t < w.mkt.feeSince + WEEK then "w<" else if t == w.mkt.feeSince + WEEK then "w=" else "w>"
+    | _ => ""
+  ls ++ "/" ++ bs ++ "/" ++ nc ++ fc ++ rs
 
 structure StepIn where
   line : String            -- STEP / PROBE / STEPF
@@ -149,7 +217,11 @@ def processStep (st : DState) (si : StepIn) : DState × String := Id.run do
       if io.ok != buyTerms cur buyer lid bid then orc := orc ++ ["o02t"]
   | _ => pure ()
   -- C15
-  if si.fault.isSome && (io.ok || !unchanged) then orc := orc ++ ["o15"]
+  match si.fault with
+  | some k =>
+    let (_, mo0) := stepF noFault cur si.op
+    if mo0.ok && k < mo0.msgs.length && (io.ok || !unchanged) then orc := orc ++ ["o15"]
+  | none => pure ()
   -- C07 drain mode
   if st.drain && !io.ok && adopt then orc := orc ++ ["o07"]
   -- C18 classification of forged hook calls that were accepted
@@ -160,7 +232,13 @@ def processStep (st : DState) (si : StepIn) : DState × String := Id.run do
   | none => pure ()
   if adopt then st' := { st' with cur := pw }
   let fl := match si.fault with | some k => s!"{si.line}{k}" | none => si.line
-  let ans := s!"{fl} {si.kind} i={if io.ok then "ok" else if io.dirty then "errd" else "err"} m={errName mo.err} D={join diffs} O={join orc} K={join klass}"
+  let extra := match si.op with
+    | .exec _ _ (.buy lid bid) =>
+      (match findById lid cur.mkt.listings, cur.mkt.buckets.find? (fun (p : (Nat × Nat) × Bucket) => decide (p.1.2 = bid)) with
+       | some (_, l), some (_, b) => s!"bps:{sideBps cur l.forSale}:{sideBps cur b.funds}"
+       | _, _ => "-")
+    | _ => "-"
+  let ans := s!"{fl} {si.kind} i={if io.ok then "ok" else if io.dirty then "errd" else "err"} m={errName mo.err} D={join diffs} O={join orc} K={join klass} S={opShape cur si.op} X={extra}"
   return (st', ans)
 
 /-! ### queries -/
@@ -296,6 +374,10 @@ def gbalConserved (pre post : GBal) (outNative outCw20 : Nat → Nat) : Bool :=
     coinAmt pre.cw20 k == coinAmt post.cw20 k + outCw20 k) &&
   nftCodes pre.nfts == nftCodes post.nfts
 
+def magClass (a : Nat) : String :=
+  if a == 0 then "0" else if a < 200 then "a" else if a < 10000 then "b" else if a < 2^32 then "c"
+  else if a < 2^64 then "d" else if a < 2^100 then "e" else "f"
+
 def processFee (st : DState) : P String := do
   let fk ← feeKind
   let g ← gbal
@@ -315,7 +397,7 @@ def processFee (st : DState) : P String := do
     match fee with
     | some f => if !(f.key == fd && f.amount == coinAmt g.native fd * 5 / 1000 && f.amount != 0) then orc := orc ++ ["o17f"]
     | none => if !(coinAmt g.native fd * 5 / 1000 == 0) then orc := orc ++ ["o17f"]
-    pure s!"FEE agree={if agree then 1 else 0} O={join orc}"
+    pure s!"FEE agree={if agree then 1 else 0} O={join orc} S={if fk == .juno then "J" else "U"}:{if fee.isSome then "fee" else "nofee"}:{magClass (coinAmt g.native fd)}:{g.native.length}"
 
 def processRoy : P String := do
   let g ← gbal
@@ -323,9 +405,11 @@ def processRoy : P String := do
   let t ← tok
   let mr := royalties g rs
   if t == "err" then
-    pure s!"ROY agree={match mr with | .err => 1 | _ => 0} O=-"
+    pure s!"ROY agree={match mr with | .err => 1 | _ => 0} O=- S=err:n{rs.length}"
   else if t == "panic" then
-    pure s!"ROY agree={match mr with | .panic => 1 | _ => 0} O=o17p"
+    -- an abort is a C17 failure only inside the property's domain (≤ 25 registry-legal rates)
+    let legal := rs.length ≤ 25 && (rs.filterMap id).all (fun e => bpsOk e.bps)
+    pure s!"ROY agree={match mr with | .panic => 1 | _ => 0} O={if legal then "o17p" else "-"}"
   else do
     let g' ← gbal
     let ms ← listOf implMsg
@@ -349,7 +433,8 @@ def processRoy : P String := do
       g.cw20.flatMap (fun c => entries.filterMap (fun e =>
         if c.amount * e.bps / 10000 = 0 then none else some [2, c.key, e.payout, c.amount * e.bps / 10000]))
     if sortCodes expect != sortCodes (ms.map implMsgCode) then orc := orc ++ ["o17m"]
-    pure s!"ROY agree={if agree then 1 else 0} O={join orc}"
+    let amax := (g.native ++ g.cw20).foldl (fun m c => max m c.amount) 0
+    pure s!"ROY agree={if agree then 1 else 0} O={join orc} S=ok:n{rs.length}:m{ms.length}:{magClass amax}:s{s / 1000}"
 
 def processCmp : P String := do
   let a ← gbal
@@ -386,7 +471,7 @@ def processLine (st : DState) (lineNo : Nat) (line : String) : DState × String 
   let toks := (line.trimAscii.toString.splitOn " ").filter (· ≠ "")
   match toks with
   | [] => (st, s!"E {lineNo} empty")
-  | "NOTE" :: _ => (st, s!"A {lineNo} NOTE")
+  | "NOTE" :: rest => (st, s!"A {lineNo} NOTE {" ".intercalate (rest.take 8)}")
   | "INIT" :: rest =>
     match world rest with
     | some ((w, idx), _) =>
@@ -435,11 +520,26 @@ def processLine (st : DState) (lineNo : Nat) (line : String) : DState × String 
         | some (_, _ :: _) => (st, s!"E {lineNo} trailing-tokens")
         | none => (st, s!"E {lineNo} bad-{kind}")
 
-partial def loop (hin hout : IO.FS.Stream) (st : DState) (n : Nat) : IO Unit := do
+/-- `PUSH` / `POP` bracket a sub-history evaluated on a fork: the whole driver state
+    (world and monitors) is saved and restored. -/
+partial def loop (hin hout : IO.FS.Stream) (st : DState) (stack : List DState) (n : Nat) : IO Unit := do
   let line ← hin.getLine
   if line.isEmpty then return ()
-  let (st', ans) := processLine st n line
-  hout.putStrLn ans
-  loop hin hout st' (n + 1)
+  if line.startsWith "PUSH" then
+    hout.putStrLn s!"A {n} PUSH"
+    loop hin hout st (st :: stack) (n + 1)
+  else if line.startsWith "POP" then
+    match stack with
+    | [] =>
+      hout.putStrLn s!"E {n} pop-without-push"
+      loop hin hout st [] (n + 1)
+    | s :: rest =>
+      hout.putStrLn s!"A {n} POP"
+      loop hin hout s rest (n + 1)
+  else
+    let (st', ans) := processLine st n line
+    hout.putStrLn ans
+    -- a new history (INIT) at top level drops any unbalanced stack
+    loop hin hout st' stack (n + 1)
 
 end Fuzion.Run
